@@ -308,7 +308,7 @@ class SecopClient(ProxyClient):
     _rxthread = None
     _txthread = None
     _connthread = None
-    _reconnecting = None  # the thread running _reconnect
+    _reconnecting = ()  # the threads running _reconnect
     _cancel_reconnect = None  # event telling the reconnect thread to stop
     disconnect_time = 0  # time of last disconnect
     secop_version = ''
@@ -341,6 +341,7 @@ class SecopClient(ProxyClient):
         # (not self._lock: connect() holds that while waiting for a reply)
         self._request_lock = RLock()
         self._shutdown = Event()
+        self._reconnecting = set()
         self.cleanup = []
         self.register_callback(None, self.handleError)
 
@@ -362,7 +363,7 @@ class SecopClient(ProxyClient):
         with self._lock:
             if self.io:
                 return
-            if current_thread() != self._reconnecting:
+            if current_thread() not in self._reconnecting:
                 # a connect by the user revokes an earlier shutdown request.
                 # the reconnect thread must not do this: disconnect() waits for it to stop
                 self._shutdown.clear()
@@ -579,7 +580,9 @@ class SecopClient(ProxyClient):
 
     def _reconnect(self, connected_callback=None, cancel=None):
         cancel = cancel or Event()
-        self._reconnecting = current_thread()
+        # there might be several of us: each broken connection starts one
+        me = current_thread()
+        self._reconnecting.add(me)
         while not (self._shutdown.is_set() or cancel.is_set()):
             try:
                 self.connect()
@@ -603,8 +606,9 @@ class SecopClient(ProxyClient):
                     self._shutdown.wait(self.reconnect_timeout)
                 else:
                     self._shutdown.wait(1)
-        self._reconnecting = None
-        self._connthread = None
+        self._reconnecting.discard(me)
+        if self._connthread == me:
+            self._connthread = None
 
     def disconnect(self, shutdown=True):
         self._running = False
